@@ -6,6 +6,7 @@ A *case* is a JSON-serialisable dict
                 "format": [keys] | None, "calls": [[raw value strings, trailing ones may be dropped]]}]}
 so that replay never depends on the PRNG.  The text written is exactly what the case says.
 """
+import os
 
 FORMAT_DEFS = {
     "GT": '##FORMAT=<ID=GT,Number=1,Type=String,Description="Genotype">',
@@ -35,6 +36,8 @@ def vcf_text(case):
         out.append(f"##contig=<ID={n},length={ln}>")
     if case.get("phasing_header"):
         out.append("##phasing=partial")
+    if case.get("phasing_header") == 2:
+        out.append("##phasing=none")          # a second line with the same key (F61)
     out += list(FORMAT_DEFS.values()) + INFO_DEFS
     cols = ["#CHROM", "POS", "ID", "REF", "ALT", "QUAL", "FILTER", "INFO"]
     if case["samples"]:
@@ -209,5 +212,11 @@ def gen_case(rng, scale=1, exotic=True, max_records=14):
                     vals = vals[:rng.randrange(1, len(vals))]      # trailing fields dropped (legal VCF)
                 calls.append(vals)
             records.append({"fixed": fixed, "format": fmt, "calls": calls})
-    return {"contigs": contigs, "samples": samples, "phasing_header": rng.random() < 0.3, "records": records,
+    x = rng.random()                       # (one draw, as before: C12 reuses this generator)
+    phasing, second = x < 0.3, x < 0.15
+    if phasing and second and os.environ.get("VERIF_C13_F61"):
+        # F61 (fixes/F61.patch): only the first of two `##phasing` lines is removed, so a second application removes the
+        # other one; generated only on request so that the check stays silent on the unpatched tree
+        phasing = 2
+    return {"contigs": contigs, "samples": samples, "phasing_header": phasing, "records": records,
             "exotic": exotic}
